@@ -415,6 +415,9 @@ def run_job(job, w):
 
 
 def run_one(argv):
+    import resource
+    # never outlive the parent as a spinning orphan: hard CPU limit for this confirmation process
+    resource.setrlimit(resource.RLIMIT_CPU, (60, 70))
     i = argv.index("--one")
     with open(argv[i + 1]) as f:
         case = json.load(f)
@@ -494,7 +497,7 @@ def main():
              "materialise_every": 4 if thorough else 2, "all_values": thorough, "small": not thorough} for j in range(n_jobs)]
     budget = 780 if thorough else 60
     env = {"PYTHONWARNINGS": "ignore::SyntaxWarning"}
-    vlib.fanout("checks.C11", jobs[:n_mand], c, timeout=1200 if thorough else 600, env=env)
+    vlib.fanout("checks.C11", jobs[:n_mand], c, timeout=2400 if thorough else 1800, env=env)
     if c.elapsed() < budget:
         vlib.fanout("checks.C11", jobs[n_mand:], c, timeout=600, env=env, deadline=c.t0 + budget)
     else:
